@@ -137,6 +137,13 @@ def walk(fa, start, stops, names=None, max_paths=600, init=None):
         base = op[:-len("WithOverflow")] if op.endswith("WithOverflow") else op
         base = base[:-len("Unchecked")] if base.endswith("Unchecked") else base
         r = None
+        if base in ("Add", "Sub", "Mul"):
+            # an opaque integer is a symbol of the linear form: `h + 2 * (x.index - h + 1)` and
+            # `2 * x.index - h + 2` are one value however they are spelled
+            if isinstance(a, tuple) and a and a[0] == "opq":
+                a = lf_sym(a[1])
+            if isinstance(b, tuple) and b and b[0] == "opq":
+                b = lf_sym(b[1])
         if base in ("Add", "Sub"):
             sg = 1 if base == "Add" else -1
             if is_lf(a) and is_lf(b):
